@@ -112,10 +112,14 @@ func (k Keeper) ToggleClient(
 	}
 
 	k.SetClientState(ctx, chainName, newClientState)
-	if err := clientState.Initialize(ctx, k.cdc, k.ClientStore(ctx, chainName), newConsensusState); err != nil {
+	// initialize the client store with the metadata of the new client type, as CreateClient does
+	if err := newClientState.Initialize(ctx, k.cdc, k.ClientStore(ctx, chainName), newConsensusState); err != nil {
 		return err
 	}
-	k.SetClientConsensusState(ctx, chainName, newClientState.GetLatestHeight(), newConsensusState)
+	// a TSS client has no consensus state (see CreateClient)
+	if newConsensusState.ClientType() != exported.TSS {
+		k.SetClientConsensusState(ctx, chainName, newClientState.GetLatestHeight(), newConsensusState)
+	}
 
 	k.Logger(ctx).Info(
 		"client state toggled",
